@@ -5,6 +5,7 @@ import (
 	"regexp"
 	"runtime"
 	"strings"
+	"syscall"
 	"time"
 )
 
@@ -17,7 +18,12 @@ type guardResult struct {
 }
 
 const (
+	// a render that has burnt this much CPU time of the process, or has not
+	// returned after hangWall on the wall clock, is not going to end. The CPU
+	// clock is what decides on a loaded machine: a starved goroutine does not
+	// advance it, so load alone cannot make a case look hung.
 	hangTimeout  = 10 * time.Second
+	hangWall     = 3 * time.Minute
 	hangHeapGrow = 512 << 20 // a render of a 3-sample state that allocates this much is not going to end
 )
 
@@ -85,6 +91,15 @@ func panicOrigin() string {
 
 var timer = time.NewTimer(time.Hour)
 
+// cpuTime is the CPU time (user + system) this process has consumed.
+func cpuTime() time.Duration {
+	var ru syscall.Rusage
+	if err := syscall.Getrusage(syscall.RUSAGE_SELF, &ru); err != nil {
+		return 0
+	}
+	return time.Duration(ru.Utime.Nano() + ru.Stime.Nano())
+}
+
 // guarded runs f in its own goroutine. A panic is caught and classified. If f
 // neither returns within hangTimeout nor keeps the heap bounded, it is reported
 // as hung; its goroutine is then leaked and the caller must stop the worker.
@@ -113,6 +128,7 @@ func guarded(f func()) guardResult {
 	case <-timer.C:
 	}
 	start := time.Now()
+	cpu0 := cpuTime()
 	var ms runtime.MemStats
 	runtime.ReadMemStats(&ms)
 	base := ms.HeapAlloc
@@ -126,8 +142,11 @@ func guarded(f func()) guardResult {
 		if ms.HeapAlloc > base+hangHeapGrow {
 			return guardResult{hung: true, hungWhy: fmt.Sprintf("still running after %v with the heap grown by more than %d MiB (output buffer grows without bound)", time.Since(start).Round(time.Millisecond), hangHeapGrow>>20)}
 		}
-		if time.Since(start) > hangTimeout {
-			return guardResult{hung: true, hungWhy: fmt.Sprintf("did not return within %v", hangTimeout)}
+		if cpuTime()-cpu0 > hangTimeout {
+			return guardResult{hung: true, hungWhy: fmt.Sprintf("did not return within %v of CPU time", hangTimeout)}
+		}
+		if time.Since(start) > hangWall {
+			return guardResult{hung: true, hungWhy: fmt.Sprintf("did not return within %v", hangWall)}
 		}
 	}
 }
